@@ -103,7 +103,9 @@ def terminal_flag(cb):
         for sw in b.switches:
             if sw.kind == 'bool' and sw.on.kind == 'local' and b.locals[sw.on.key]['ty'] == 'bool':
                 te = sw.edges_for(True)
-                if te and b.edges_dominate(te, ins.bb) and b.const_stores(sw.on.key):
+                # a flag is set both ways by constant stores (a short-circuit temporary is not)
+                vals = set(v for (_bb, _si, v) in b.const_stores(sw.on.key))
+                if te and b.edges_dominate(te, ins.bb) and vals >= {0, 1}:
                     cands.append(sw)
         # innermost guard: the one dominated by all the others
         inner = [sw for sw in cands if all(b.dominates(o.bb, sw.bb) for o in cands)]
